@@ -3,6 +3,9 @@ import Mathlib.Tactic.Ring
 import Mathlib.Tactic.Linarith
 import Mathlib.Tactic.FieldSimp
 import Mathlib.Algebra.Order.Field.Rat
+import Mathlib.Algebra.Order.Field.Basic
+import Mathlib.Algebra.Order.Ring.Abs
+import Mathlib.Tactic.NormNum
 import Mathlib.Algebra.Order.BigOperators.Group.List
 /-! Net: `Rat` lemmas for the PageRank step and the modularity formula (single Mathlib modules). -/
 namespace Solvor.Net
@@ -128,5 +131,89 @@ theorem rank_sum (G : Graph) (hn : G.nodes.Nodup) (t : Nat → Rat) :
   simp only [h2]
   rw [sum_ite_const]
   rfl
+
+/-! ### the modularity computation at `Rat` -/
+
+theorem foldl_add_sum {α} (l : List α) (f : α → Rat) (a : Rat) :
+    l.foldl (fun q c => q + f c) a = a + (l.map f).sum := by
+  induction l generalizing a with
+  | nil => simp
+  | cons x l ih => simp only [List.foldl_cons, ih, List.map_cons, List.sum_cons]; ring
+
+theorem cast_sum_map {α} (l : List α) (f : α → Nat) :
+    (((l.map f).sum : Nat) : Rat) = (l.map fun x => (f x : Rat)).sum := by
+  induction l with
+  | nil => simp
+  | cons x l ih => simp only [List.map_cons, List.sum_cons, Nat.cast_add, ih]
+
+theorem sum_ite_filter {α} (l : List α) (p q : α → Bool) :
+    ((l.filter p).map fun w => if q w then (1 : Rat) else 0).sum
+      = ((l.filter fun w => p w && q w).length : Rat) := by
+  induction l with
+  | nil => simp
+  | cons x l ih =>
+    cases hp : p x <;> cases hq : q x <;>
+      simp only [List.filter_cons, hp, hq, Bool.false_eq_true, if_false, if_true, List.map_cons,
+        List.sum_cons, ih, Bool.and_self, Bool.and_false, Bool.and_true, List.length_cons] <;>
+      push_cast <;> ring
+
+theorem sum_flatMap_ite {α} (l1 l2 : List α) (p q : α → α → Bool) :
+    ((l1.flatMap fun v => (l2.filter (p v)).map fun w => if q v w then (1 : Rat) else 0)).sum
+      = ((l1.flatMap fun v => l2.filter fun w => p v w && q v w).length : Rat) := by
+  induction l1 with
+  | nil => simp
+  | cons x l ih =>
+    simp only [List.flatMap_cons, List.sum_append, List.length_append, Nat.cast_add, ih, sum_ite_filter]
+
+/-- the total edge weight of the mirror is half the definitional degree sum -/
+theorem degsum_eq (G : Graph) (hn : G.nodes.Nodup) (l : List Nat) :
+    (l.map fun v => (G.sadj v).length) = l.map (degDef G) := by
+  apply List.map_congr_left
+  intro v _
+  exact length_sadj G hn v
+
+/-- the final modularity computation of the mirror equals the formula, for any list of communities -/
+theorem reportMod_eq (G : Graph) (hn : G.nodes.Nodup) (γ : Rat) (P : List (List Nat)) :
+    reportMod ratOps G.sadj γ
+      (ratOps.div (ratOps.ofNat (G.nodes.map fun v => (G.sadj v).length).sum) (ratOps.ofNat 2)) P
+      = modularityDef G γ P := by
+  unfold reportMod modularityDef
+  simp only [ratOps]
+  rw [foldl_add_sum]
+  simp only [Nat.cast_zero, Nat.cast_one, zero_add, Nat.cast_ofNat]
+  congr 1
+  apply List.map_congr_left
+  intro c _
+  rw [degsum_eq G hn G.nodes]
+  have hL : (c.flatMap fun v => (c.filter fun w => decide (v < w)).map fun w =>
+        if (G.sadj v).contains w then (1 : Rat) else 0).sum
+      = ((c.flatMap fun v => c.filter fun w => decide (v < w) && (G.arc v w || G.arc w v)).length : Rat) := by
+    rw [sum_flatMap_ite c c (fun v w => decide (v < w)) (fun v w => (G.sadj v).contains w)]
+    congr 2
+    apply List.flatMap_congr
+    intro v _
+    apply List.filter_congr
+    intro w _
+    by_cases hvw : v < w
+    · have hne : v ≠ w := Nat.ne_of_lt hvw
+      have := mem_sadj G v w
+      simp only [hvw, decide_true, Bool.true_and]
+      rw [Bool.eq_iff_iff]
+      simp only [List.contains_iff_mem, Bool.or_eq_true]
+      rw [this]; simp [hne]
+    · simp [hvw]
+  have hD : (c.map fun v => ((G.sadj v).length : Rat)).sum = (((c.map (degDef G)).sum : Nat) : Rat) := by
+    rw [cast_sum_map]
+    congr 1
+    apply List.map_congr_left
+    intro v _
+    rw [length_sadj G hn v]; rfl
+  rw [hL, hD]
+
+theorem modularityDef_zero (G : Graph) (γ : Rat) (P : List (List Nat))
+    (h : (G.nodes.map (degDef G)).sum = 0) : modularityDef G γ P = 0 := by
+  unfold modularityDef
+  simp only [h, Nat.cast_zero, zero_div, div_zero, mul_zero, sub_zero]
+  exact sum_map_zero' P
 
 end Solvor.Net
